@@ -47,6 +47,13 @@ pub enum Ev {
         path: String,
         ok: bool,
     },
+    /// The scheduler's whole view (pending jobs with their current read access, counters,
+    /// also-completes map), at the start of `exec` (`about` empty) and after each
+    /// `handle_success(about)`.
+    Snapshot {
+        about: String,
+        text: String,
+    },
 }
 
 pub trait Hooks: Send + Sync {
